@@ -989,6 +989,71 @@ func starvedLine(line string) bool {
 	return errs+ok > contacted
 }
 
+var keepOnce sync.Once
+
+// OpKeep: keep <style> <k>: obtain a token, serialise it, obtain k further tokens for other digests through the same
+// client, serialise the first token again: its bytes must not have changed and must still parse and verify.
+// (Exported: C16 reuses it, the property "what was attached is what was digested" is about these bytes.)
+func OpKeep(f []string) string {
+	keepOnce.Do(func() {
+		if tsa == nil {
+			zerolog.SetGlobalLevel(zerolog.Disabled)
+			log.SetFlags(0)
+			log.SetOutput(logs)
+			initPKI()
+			startTSA()
+		}
+	})
+	legacy := f[0] == "legacy"
+	k := int(hx.Atoi(f[1]))
+	tsa.reset([]string{"valid"}, nil)
+	logs.take()
+	client := newClient(1, legacy, nil)
+	res, err, pan := guarded(func() (string, error) {
+		first, err := client.Timestamp(context.Background(), &pkcs9.Request{EncryptedDigest: []byte("first signature value"), Hash: crypto.SHA256, Legacy: legacy})
+		if err != nil {
+			return "", err
+		}
+		before, err := first.Marshal()
+		if err != nil {
+			return "", err
+		}
+		for i := 0; i < k; i++ {
+			// later replies of different lengths
+			other := bytes.Repeat([]byte{byte('a' + i)}, 20+37*i)
+			if _, err := client.Timestamp(context.Background(), &pkcs9.Request{EncryptedDigest: other, Hash: crypto.SHA256, Legacy: legacy}); err != nil {
+				return "", err
+			}
+		}
+		after, err := first.Marshal()
+		if err != nil {
+			return "same=0 reparse=marshal-error", nil
+		}
+		same := bytes.Equal(before, after)
+		reparse := "ok"
+		if psd, err := pkcs7.Unmarshal(after); err != nil {
+			reparse = "err"
+		} else if _, err := psd.Content.Verify(nil, false); err != nil {
+			reparse = "verify-err"
+		}
+		return fmt.Sprintf("same=%d reparse=%s", b2i(same), reparse), nil
+	})
+	if pan != "" {
+		return "panic " + pan
+	}
+	if err != nil {
+		return "err " + classify(err)
+	}
+	return "ok " + res
+}
+
+func b2i(b bool) int {
+	if b {
+		return 1
+	}
+	return 0
+}
+
 // C10 off <flow>   timestamping not configured or disabled by flag: Timestamper is nil
 func opOff(f []string) string {
 	flow := f[0]
@@ -1215,6 +1280,8 @@ func Impl() {
 			return opVC(f[1:])
 		case "mv":
 			return opMV(f[1:])
+		case "keep":
+			return OpKeep(f[1:])
 		}
 		return "bad-op"
 	})
@@ -1234,6 +1301,12 @@ func Gen(w *bufio.Writer, seed uint64, tier string) {
 		if !seen[s] {
 			seen[s] = true
 			fmt.Fprintln(w, s)
+		}
+	}
+	// tokens are values: a token obtained earlier is unchanged by later requests through the same client
+	for _, style := range []string{"rfc", "legacy"} {
+		for _, n := range []int{1, 2, 5} {
+			emit("C10 keep %s %d", style, n)
 		}
 	}
 	ts := func(style, flow string, pre int, script []string) {
